@@ -188,14 +188,15 @@ where
         start: usize,
         hashes: I,
     ) -> Result<()> {
-        let index = self.capacity() + start - 1;
         let mut count = 0;
         // first count number of hashes, and check that they fit in the tree
         // then insert into the tree
         let hashes = hashes.into_iter().collect::<Vec<_>>();
-        if hashes.len() + start > self.capacity() {
+        // (written so that a huge start cannot wrap around)
+        if start > self.capacity() || hashes.len() > self.capacity() - start {
             return Err(Report::msg("provided hashes do not fit in the tree"));
         }
+        let index = self.capacity() + start - 1;
         hashes.into_iter().for_each(|hash| {
             self.nodes[index + count] = hash;
             self.cached_leaves_indices[start + count] = 1;
@@ -220,7 +221,7 @@ where
         if leaves_vec.is_empty() && indices.is_empty() {
             return Err(Report::msg("no leaves or indices to be removed"));
         }
-        if start + leaves_vec.len() > self.capacity() {
+        if start > self.capacity() || leaves_vec.len() > self.capacity() - start {
             return Err(Report::msg("provided leaves do not fit in the tree"));
         }
         if indices.iter().any(|&i| i >= self.capacity()) {
